@@ -164,7 +164,7 @@ Qed.
 
 Lemma inv_add : forall s t id pid, Inv s -> find id (ints s) = None -> find_pid pid (ints s) = None ->
   mem pid (reaped s) = false -> forall lk sp, (forall a b c, sp = Some (a, b, c) -> False) ->
-  Inv {| ints := new_rec t id pid :: ints s; wlock := lk; reaped := reaped s; spawning := sp |}.
+  Inv {| ints := new_rec t id pid :: ints s; wlock := lk; reaped := reaped s; spawning := sp; kpend := kpend s; draining := draining s |}.
 Proof.
   intros s t id pid [H1 H2 H3 H4 H5 H6] Hf Hp Hm lk sp Hsp. constructor; simpl.
   - constructor; [|exact H1]. intro Hin. apply in_map_iff in Hin. destruct Hin as [w [E Hw]].
@@ -208,7 +208,8 @@ Proof. intros. apply Forall_app. split; [assumption|constructor; [assumption|con
 
 Lemma inv_reap_found : forall s p pid st, Inv s -> spawning s = None -> find_pid pid (ints s) = Some p ->
   Inv {| ints := upd_rec (w_id p) (set_reap st) (ints s); wlock := wlock s;
-         reaped := (if is_dead st then pid :: reaped s else reaped s); spawning := spawning s |}.
+         reaped := (if is_dead st then pid :: reaped s else reaped s); spawning := spawning s;
+         kpend := kpend s; draining := draining s |}.
 Proof.
   intros s p pid st [H1 H2 H3 H4 H5 H6] Hsp Hf. destruct (find_pid_some _ _ _ Hf) as [Hp [Hpid Hlive]].
   assert (Huniq : forall w, In w (ints s) -> w_id w = w_id p -> w = p).
@@ -242,7 +243,7 @@ Proof.
 Qed.
 
 Lemma inv_reap_stranger : forall s pid, Inv s -> spawning s = None -> find_pid pid (ints s) = None ->
-  Inv {| ints := ints s; wlock := wlock s; reaped := pid :: reaped s; spawning := spawning s |}.
+  Inv {| ints := ints s; wlock := wlock s; reaped := pid :: reaped s; spawning := spawning s; kpend := kpend s; draining := draining s |}.
 Proof.
   intros s pid [H1 H2 H3 H4 H5 H6] Hsp Hf. constructor; cbn [ints wlock reaped spawning]; auto.
   - intros w Hw. rewrite (H3 w Hw), mem_cons. destruct (w_pid w =? pid) eqn:E; [|reflexivity]. cbn [orb]. zb.
@@ -275,7 +276,7 @@ Proof.
     apply (inv_same_ints s); auto. simpl. intros t0 i p E.
     destruct (i_spawn s HI t0 i p E) as [A _]. rewrite El in A. discriminate.
   - (* WUnlock *)
-    destruct (holds s t); [|discriminate]. destruct (spawning s) eqn:Es; [discriminate|]. inversion H; subst; clear H.
+    destruct (holds s t && negb (draining s)); [|discriminate]. destruct (spawning s) eqn:Es; [discriminate|]. inversion H; subst; clear H.
     apply (inv_same_ints s); auto. simpl. intros; discriminate.
   - (* WReg *)
     destruct (holds s t); [|discriminate]. destruct (find id (ints s)) eqn:Ef; [discriminate|].
@@ -295,10 +296,12 @@ Proof.
     apply inv_add; auto. intros; discriminate.
   - (* WReap *)
     destruct (holds s t); [|discriminate]. destruct (spawning s) eqn:Es; [discriminate|].
-    destruct (mem pid (reaped s)); [discriminate|]. unfold reap_one in H.
+    destruct (mem pid (reaped s) || negb (mem_pair pid st (kpend s))); [discriminate|]. unfold reap_one in H.
+    assert (Hk : forall s1 k d, Inv s1 -> Inv (with_k s1 k d)).
+    { intros s1 k d H1. apply (inv_same_ints s1); auto. }
     destruct (find_pid pid (ints s)) as [p|] eqn:Ep.
-    + inversion H; subst; clear H. apply inv_reap_found; auto.
-    + destruct (is_dead st); inversion H; subst; clear H; [|exact HI]. apply inv_reap_stranger; auto.
+    + inversion H; subst; clear H. apply Hk. apply inv_reap_found; auto.
+    + destruct (is_dead st); inversion H; subst; clear H; apply Hk; [|exact HI]. apply inv_reap_stranger; auto.
   - (* WSteal *)
     destruct (holds s t); [|discriminate]. destruct (find id (ints s)) as [w|] eqn:Ef; [|discriminate].
     destruct ((w_thr w =? t) && thread_frames_done t (ints s)) eqn:E; [|discriminate].
@@ -333,6 +336,12 @@ Proof.
     dmatch H. inversion H; subst. exact HI.
   - (* WBlock *)
     dmatch H. inversion H; subst. exact HI.
+  - (* WNone *)
+    destruct (holds s t); [|discriminate]. inversion H; subst. apply (inv_same_ints s); auto.
+  - (* WChange *)
+    inversion H; subst. apply (inv_same_ints s); auto.
+  - (* WIdle *)
+    dmatch H. inversion H; subst. exact HI.
 Qed.
 
 Theorem run_inv : forall ls s s', Inv s -> run s ls = Some s' -> Inv s'.
@@ -361,8 +370,8 @@ Lemma routing_reap : forall s t pid st s', reachable s -> step s (WReap t pid st
   end.
 Proof.
   intros s t pid st s' R H. unfold step in H. simpl in H. destruct (holds s t); [|discriminate].
-  destruct (spawning s); [discriminate|]. destruct (mem pid (reaped s)); [discriminate|]. unfold reap_one in H.
-  destruct (find_pid pid (ints s)) as [p|] eqn:Ep.
+  destruct (spawning s); [discriminate|]. destruct (mem pid (reaped s) || negb (mem_pair pid st (kpend s))); [discriminate|].
+  unfold reap_one in H. destruct (find_pid pid (ints s)) as [p|] eqn:Ep.
   - inversion H; subst. simpl. destruct (find_pid_some _ _ _ Ep) as [_ [A B]]. auto.
   - destruct (is_dead st); inversion H; subst; reflexivity.
 Qed.
@@ -410,7 +419,7 @@ Proof.
   - intros u p st. unfold step. simpl. destruct (holds s u); [|reflexivity]. rewrite Hs. reflexivity.
   - intros l s' H. unfold step in H. destruct l; simpl in H; rewrite ?Hs in H.
     + rewrite A in H. discriminate.
-    + destruct (holds s t0); discriminate.
+    + destruct (holds s t0 && negb (draining s)); discriminate.
     + dmatch H.
     + dmatch H.
     + destruct (holds s t0); [|discriminate]. destruct ((t =? t0) && (id =? id0)) eqn:E; [|discriminate].
@@ -421,6 +430,9 @@ Proof.
     + dmatch H; inversion H; subst; left; exact Hs.
     + dmatch H; inversion H; subst; left; exact Hs.
     + dmatch H; inversion H; subst; left; exact Hs.
+    + dmatch H; inversion H; subst; left; exact Hs.
+    + dmatch H; inversion H; subst; left; exact Hs.
+    + inversion H; subst; left; exact Hs.
     + dmatch H; inversion H; subst; left; exact Hs.
 Qed.
 
@@ -450,7 +462,7 @@ Proof.
 Qed.
 
 (* ---------- the monitor accepts every accepted sequence ---------- *)
-Definition proj (s : state) : mstate := {| m_ints := ints s; m_reaped := reaped s; m_fork := spawning s |}.
+Definition proj (s : state) : mstate := {| m_ints := ints s; m_reaped := reaped s; m_fork := spawning s; m_kpend := kpend s |}.
 
 Ltac pfin H := inversion H; subst; simpl; repeat match goal with E : spawning _ = _ |- _ => rewrite E end; reflexivity.
 
@@ -464,7 +476,8 @@ Proof.
   - destruct (holds s t); [|discriminate]. destruct (spawning s) as [[[a b] c]|] eqn:Esp; [|discriminate].
     destruct ((a =? t) && (b =? id)); [|discriminate]. pfin H.
   - destruct (holds s t); [|discriminate]. destruct (spawning s) eqn:Esp; [discriminate|].
-    destruct (mem pid (reaped s)); [discriminate|]. unfold reap_one in H.
+    destruct (mem pid (reaped s)); [discriminate|]. simpl in H |- *.
+    destruct (negb (mem_pair pid st (kpend s))); [discriminate|]. unfold reap_one in H.
     destruct (find_pid pid (ints s)); [pfin H|].
     destruct (is_dead st); pfin H.
   - destruct (holds s t); [|discriminate]. destruct (find id (ints s)) as [w|]; [|discriminate].
@@ -480,6 +493,9 @@ Proof.
     assert (G : got_termination t (reaped s) (ints s) = true).
     { unfold got_termination. apply forallb_forall. intros w Hw. rewrite (i_dead s HI w Hw), eqb_reflx. apply orb_true_r. }
     rewrite G. pfin H.
+  - destruct (holds s t); [|discriminate]. pfin H.
+  - pfin H.
+  - destruct (idle_ok (ints s) (kpend s)); [|discriminate]. pfin H.
 Qed.
 
 Theorem monitor_accepts : forall ls, accepts ls = true -> monitor ls = true.
@@ -492,4 +508,45 @@ Proof.
       apply IH; [eapply step_inv; eauto|exact Hr]. }
   destruct (run init ls) as [s|] eqn:E; [|discriminate].
   change minit with (proj init). rewrite (G ls init s init_inv E). reflexivity.
+Qed.
+
+(* ---------- C11_drained: the reaper drains, and at rest nothing is owed to a live interest ---------- *)
+Lemma drain_reap : forall s t pid st s', step s (WReap t pid st) = Some s' ->
+  draining s' = true /\ mem_pair pid st (kpend s) = true /\ kpend s' = remove_first pid st (kpend s) /\ wlock s' = Some t.
+Proof.
+  intros s t pid st s' H. unfold step in H. simpl in H. destruct (holds s t) eqn:Eh; [|discriminate].
+  destruct (spawning s); [discriminate|]. destruct (mem pid (reaped s)); [discriminate|]. simpl in H.
+  destruct (mem_pair pid st (kpend s)) eqn:Em; [|discriminate]. simpl in H. apply holds_lock in Eh.
+  unfold reap_one in H. destruct (find_pid pid (ints s)); [inversion H; subst; simpl; auto|].
+  destruct (is_dead st); inversion H; subst; simpl; auto.
+Qed.
+
+Lemma drain_unlock : forall s t s', step s (WUnlock t) = Some s' -> draining s = false.
+Proof.
+  intros s t s' H. unfold step in H. simpl in H. destruct (holds s t); [|discriminate].
+  destruct (draining s); [discriminate|reflexivity].
+Qed.
+
+Lemma drain_none : forall s t s', step s (WNone t) = Some s' -> wlock s = Some t /\ draining s' = false /\ ints s' = ints s.
+Proof.
+  intros s t s' H. unfold step in H. simpl in H. destruct (holds s t) eqn:Eh; [|discriminate]. inversion H; subst.
+  apply holds_lock in Eh. auto.
+Qed.
+
+(* while the drain is open nobody but an end-of-drain (or another reap) gets the reaper out of its critical section *)
+Lemma drain_persists : forall s l s', draining s = true -> step s l = Some s' ->
+  draining s' = true \/ exists t, l = WNone t.
+Proof.
+  intros s l s' Hd H. unfold step in H. destruct l; simpl in H;
+    try (left; dmatch H; inversion H; subst; simpl; assumption).
+  - left. unfold reap_one in H. dmatch H; inversion H; subst; reflexivity.
+  - right. exists t. reflexivity.
+Qed.
+
+Lemma idle_nothing_owed : forall s t s' w, step s (WIdle t) = Some s' -> In w (ints s) -> w_dead w = false ->
+  owes (w_pid w) (kpend s) = false.
+Proof.
+  intros s t s' w H Hw Hd. unfold step in H. simpl in H. destruct (idle_ok (ints s) (kpend s)) eqn:E; [|discriminate].
+  unfold idle_ok in E. rewrite forallb_forall in E. specialize (E w Hw). rewrite Hd in E. simpl in E.
+  apply negb_true_iff in E. exact E.
 Qed.
